@@ -136,7 +136,8 @@ def gen_scenario(rng, conflict=None):
             # that deregisters, registers again and subscribes anew while the pass is under way
             ([{"op": "attend"}, {"_interval_subs": True}], [{"op": "attend"}]),
             # a deregistration (registration and ALL subscriptions of the consumer) against unsubscriptions of two of them
-            ([{"op": "dereg_c2"}], [{"op": "unsub", "pre": 0}, {"op": "unsub", "pre": 1}]),
+            # (the consumer registers again at once: its unsubscriptions are accepted while the deregistration is still under way)
+            ([{"op": "dereg_c2"}], [{"op": "reg_c2"}, {"op": "unsub", "pre": 0}, {"op": "unsub", "pre": 1}]),
             ([{"op": "attend"}], [{"op": "dereg_c2"}, {"op": "reg_c2"}, {"op": "subscribe"}]),
             ([{"op": "attend"}, {"op": "attend"}], [{"op": "dereg_c2"}, {"op": "reg_c2"}, {"op": "subscribe"}, {"op": "add"}]),
         ]
@@ -781,7 +782,7 @@ def shards(tier, seed):
     for j in range(N_CONFLICT_PAIRS * (1 if tier == "quick" else 3)):
         spec = gen_scenario(rng, conflict=j)
         for mode in ("sync", "instr", "random"):
-            multi = any(len(a) >= 3 for a in spec["actors"][:2]) and spec["actors"][0][0]["op"] in ("attend", "dereg_c2") and spec["actors"][1][0]["op"] in ("attend", "dereg_c2")
+            multi = j % N_CONFLICT_PAIRS >= 14 and any(len(a) >= 3 for a in spec["actors"][:2])
             # the multi-step conflicts need three context switches at the right places: a larger budget, split over shards
             nsh = 4 if multi and mode != "instr" else 1
             for sh in range(nsh):
